@@ -600,8 +600,49 @@ pub(crate) fn t5_annotation_stack() {
     std::mem::forget(r);
 }
 
+// ---------------------------------------------------------------------
+// V1  border drawing is governed by draw_borders only (C15, C05)
+// ---------------------------------------------------------------------
+
+fn count_border_lines(r: &SubRenderer<TrivialDecorator>) -> usize {
+    let mut n = 0;
+    for l in r.lines.iter() {
+        if let RenderLine::Line(_) = l {
+            n += 1;
+        }
+    }
+    n
+}
+
+/// Stacked-row fallback with no cells: a closing rule is drawn iff borders are enabled.
+#[cfg_attr(kani, kani::proof)]
+#[cfg_attr(kani, kani::unwind(5))]
+pub(crate) fn v1_vert_row_borders() {
+    let mut opts = RenderOptions::default();
+    opts.draw_borders = kani::any();
+    opts.raw = kani::any();
+    opts.pad_block_width = kani::any();
+    let db = opts.draw_borders;
+    let mut r = SubRenderer::new(3, opts, TrivialDecorator::new());
+    let res = r.append_vert_row(Vec::new());
+    assert!(res.is_ok());
+    assert!(r.lines.len() == db as usize, "a rule is drawn iff table borders are enabled");
+    assert!(count_border_lines(&r) == db as usize);
+    if db {
+        if let Some(RenderLine::Line(b)) = r.lines.back() {
+            assert!(b.segments.len() == 3, "the closing rule spans the full width");
+        } else {
+            panic!("expected a rule");
+        }
+    }
+    kani::cover!(!db && !r.options.raw);
+    kani::cover!(db);
+    std::mem::forget(r);
+}
+
+
 crate::verif_common::registry! {
     t1_width_minus, t2_wrap_width,
     t3_border_join_step, t3_border_stretch, t3_border_merge, t3_border_merge_small, t3_border_glyphs, t3_border_vertical_lines,
-    t4_tagged_push_str, t4_tagged_insert_front, t4_tagged_push_char, t4_tagged_frag_consume, t5_annotation_stack, 
+    t4_tagged_push_str, t4_tagged_insert_front, t4_tagged_push_char, t4_tagged_frag_consume, t5_annotation_stack, v1_vert_row_borders, 
 }
